@@ -16,6 +16,9 @@ func init() {
 }
 
 func vRulesOp(t []string) string {
+	if vStr(t, 1) == "rx" {
+		return vRulesRx(t)
+	}
 	if vStr(t, 1) != "apply" {
 		return "bad-op"
 	}
@@ -53,6 +56,44 @@ func vRulesOp(t []string) string {
 			lit = "^" + lit + "$"
 		}
 		r.Expr = lit
+		r.Replacement = string(vUnhex(f[4]))
+		rs = append(rs, r)
+	}
+	js, _ := json.Marshal(rs)
+	rules := NewMetricRulesFromJSON(js)
+	res, out := rules.Apply(name)
+	names := map[MetricRuleResult]string{RuleResultMatched: "matched", RuleResultUnmatched: "unmatched", RuleResultIgnore: "ignore"}
+	return fmt.Sprintf("res=%s out=%s", names[res], vHex([]byte(out)))
+}
+
+
+// rules rx n=<name hex> r=<order>~<flags>~<postfix>~<go expression hex>~<replacement hex>;…  (the postfix field is for the model)
+func vRulesRx(t []string) string {
+	nameHex, _ := vKV(t, "n")
+	name := string(vUnhex(nameHex))
+	spec, _ := vKV(t, "r")
+	type raw struct {
+		Ignore      bool   `json:"ignore"`
+		EachSegment bool   `json:"each_segment"`
+		ReplaceAll  bool   `json:"replace_all"`
+		Terminate   bool   `json:"terminate_chain"`
+		Order       int    `json:"eval_order"`
+		Replacement string `json:"replacement"`
+		Expr        string `json:"match_expression"`
+	}
+	var rs []raw
+	for _, item := range strings.Split(spec, ";") {
+		f := strings.Split(item, "~")
+		if len(f) != 5 {
+			return "bad-op"
+		}
+		var r raw
+		fmt.Sscanf(f[0], "%d", &r.Order)
+		r.Ignore = strings.Contains(f[1], "i")
+		r.EachSegment = strings.Contains(f[1], "e")
+		r.ReplaceAll = strings.Contains(f[1], "a")
+		r.Terminate = strings.Contains(f[1], "t")
+		r.Expr = string(vUnhex(f[3]))
 		r.Replacement = string(vUnhex(f[4]))
 		rs = append(rs, r)
 	}
